@@ -80,7 +80,7 @@ try:
     rc3, out3 = step("demonstration with the change (must fail)", "go test -vet=off -count=1 -timeout 20m -run '%s' ./%s 2>&1 | tail -25; test ${PIPESTATUS[0]} -eq 0" % (runre, ddir), timeout=1500)
     subprocess.run("git checkout -q -- .", shell=True, cwd=W)
     rc4, _ = step("demonstration without the change (must pass)", "go test -vet=off -count=1 -timeout 20m -run '%s' ./%s 2>&1 | tail -8; test ${PIPESTATUS[0]} -eq 0" % (runre, ddir), timeout=1500)
-    failed3 = rc3 != 0 and "build failed" not in out3 and ("--- FAIL" in out3 or "panic:" in out3 or "fatal error" in out3 or "exit status" in out3)
+    failed3 = rc3 != 0 and "build failed" not in out3 and ("--- FAIL" in out3 or "panic:" in out3 or "fatal error" in out3 or "exit status" in out3 or re.search(r"^FAIL\t", out3, re.M) is not None)
     result["confirmed"] = (rc1 == 0 and rc2 == 0 and failed3 and rc4 == 0)
     result["verdicts"] = {"builds": rc1 == 0, "existing_tests_pass": rc2 == 0, "demo_fails_with_change": failed3, "demo_passes_without_change": rc4 == 0}
 except SystemExit as e:
